@@ -46,6 +46,22 @@ Definition float_source (data : list Z) (ncomp : nat) : outcome source :=
          else Raise DaeMalformed
   end.
 
+(* FloatSource.load: an accessor whose params are named exactly S, T, P is a 3-d texture
+   coordinate; `data.shape = (-1, 3)` (ValueError, turned into DaeMalformedError by
+   Geometry.load, unless the length is a multiple of 3), the third value of every triple is
+   dropped and the source has the two components S, T.  U, V is renamed S, T; any other
+   naming (including unnamed params) leaves one component per <param>. *)
+Fixpoint drop_third (l : list Z) : list Z :=
+  match l with
+  | a :: b :: _ :: r => a :: b :: drop_third r
+  | _ => []
+  end.
+
+Definition float_source_load (stp : bool) (data : list Z) (nparams : nat) : outcome source :=
+  if stp then
+    if (length data mod 3 =? 0)%nat then float_source (drop_third data) 2 else Raise DaeMalformed
+  else float_source data nparams.
+
 (* ---- Primitive._getInputsFromList *)
 
 (* pass 1: a VERTEX input that points at a <vertices> dict queues one input per dict item *)
